@@ -497,6 +497,17 @@ func (c *Cluster) applySnapshot(nd *rnode, s pb.Snapshot) {
 func (c *Cluster) shadowCheck(nd *rnode) {
 	fi, _ := nd.st.FirstIndex()
 	li, _ := nd.st.LastIndex()
+	if nd.eng != nil {
+		// what a restart would see: a second RocksStorage view over the same engine recomputes
+		// first/last index from the stored keys instead of the cached values
+		fresh := raft.NewRocksStorage(nd.id, 1, true, nd.eng)
+		ffi, _ := fresh.FirstIndex()
+		fli, _ := fresh.LastIndex()
+		if ffi != fi || fli != li {
+			c.fail("C03", "storage-cache-differs-from-persisted", fmt.Sprintf("replica %d storage reports [%d,%d] but a reopened view of the same engine reports [%d,%d]", nd.id, fi, li, ffi, fli))
+			return
+		}
+	}
 	if li+1 < fi {
 		c.fail("C03", "storage-index-inverted", fmt.Sprintf("replica %d storage first %d last %d", nd.id, fi, li))
 		return
@@ -510,6 +521,10 @@ func (c *Cluster) shadowCheck(nd *rnode) {
 		for i, e := range ents {
 			if e.Index != fi+uint64(i) {
 				c.fail("C03", "storage-entries-not-contiguous", fmt.Sprintf("replica %d storage entry %d has index %d", nd.id, fi+uint64(i), e.Index))
+				return
+			}
+			if i > 0 && e.Term < ents[i-1].Term {
+				c.fail("C03", "storage-terms-decrease", fmt.Sprintf("replica %d storage has term %d at %d after term %d", nd.id, e.Term, e.Index, ents[i-1].Term))
 				return
 			}
 			t, err := nd.st.Term(e.Index)
